@@ -347,7 +347,7 @@ pub fn run(args: &Args) -> i32 {
     r.c13.require("templates_with_txs", 1);
     r.c13.require("obs.late_fill.templates_after_uncle_or_proposal_update", 3);
     r.c13.require("obs.cpfp.templates_at_cycle_limit", 3);
-    r.c13.require("obs.uncle_race.next_block_embeds_the_candidate", 3);
+    r.c13.require("obs.uncle_race.uncle_update_parked_across_the_tip_change", 3);
     r.c13.require("obs.window_race.submission_answered_while_pool_behind_chain", 2);
     r.c13.require("sampled.judged_on_the_new_tip_taken_inside_the_tip_change", 10);
     if sessions >= 7 {
@@ -1954,6 +1954,8 @@ impl Sess {
             }
             Err(e) => {
                 let kind: String = e.split(':').take(2).collect::<Vec<_>>().join(":").chars().take(90).collect();
+                // hashes do not belong into a signature
+                let kind = match kind.find("(Byte32(") { Some(i) => format!("{})", &kind[..i]), None => kind };
                 // cause classification (only what the harness can prove from the dump taken right
                 // before the template): the template is over the size / cycle limit, the pool's
                 // own ancestor aggregates of template members are understated (compared with the
@@ -2380,23 +2382,25 @@ impl Sess {
         self.tg.cfg.max_new_txs = saved.1;
         let embeds = self.tg.rc.get(&a2).block.uncles().hashes().into_iter().any(|x| h(&x) == u1);
         r.c13.count("ops.scenario_uncle_race");
-        // the delay sits between the assembler's uncle selection and its write into the template
-        {
-            let mut points = std::collections::BTreeMap::new();
-            points.insert("pool::before_reorg_lock", (250u64, 2_500u64));
-            points.insert("assembler::after_prepare_uncles", (2000u64, 6_000u64));
-            hooks::set_plan(hooks::DelayPlan { points, seed: self.salt });
+        // the block assembler is parked (gate) between its uncle selection for the old tip and
+        // its write into the template, A2 arrives meanwhile; the parked update is released after
+        // the pool service had time to install the template of the new tip (had it been able to)
+        hooks::arm_gate("assembler::after_prepare_uncles");
+        self.cur_op = "the uncle race scenario";
+        let ok1 = self.deliver(&[u1], r);
+        let held = ok1 && hooks::wait_gate_held(Duration::from_millis(1500));
+        let ok = ok1 && self.deliver(&[a2], r);
+        if held {
+            let us = if self.xrng.bool() { 300 } else { 3_000 + self.xrng.below(4_000) };
+            std::thread::sleep(Duration::from_micros(us));
         }
-        let ok = self.deliver(&[u1, a2], r);
-        std::thread::sleep(Duration::from_millis(15));
-        {
-            let mut points = std::collections::BTreeMap::new();
-            points.insert("pool::before_reorg_lock", (250u64, 2_500u64));
-            points.insert("assembler::after_prepare_uncles", (300u64, 2_000u64));
-            hooks::set_plan(hooks::DelayPlan { points, seed: self.salt });
-        }
+        let released = hooks::release_gate();
         if !ok {
+            self.cur_op = "";
             return false;
+        }
+        if held && released && embeds {
+            r.c13.count("obs.uncle_race.uncle_update_parked_across_the_tip_change");
         }
         if embeds {
             r.c13.count("obs.uncle_race.next_block_embeds_the_candidate");
